@@ -207,6 +207,7 @@ structure Txn where
   pf : List (Nat × Bool × Bool × Rat) := []          -- hook: the same members after the transaction
   hook : Bool := false
   ran : Nat := 2
+  ct : List (Nat × Nat × List Nat) := []             -- Router::contains of (connector, end)
 
 structure St where
   model : State := init
@@ -455,6 +456,28 @@ def checkTxn (s : St) : St := Id.run do
   let s := { s with estNo := [] }
   let s := checkReroute s t
   let s := { s with decided := none }
+  -- Router::contains is maintained incrementally (adjustContainsWithDel / adjustContainsWithAdd per moved obstacle,
+  -- generateContains per changed end point); from scratch it is: the active obstacles whose routing polygon
+  -- strictly contains the point (`inPoly(poly, p, countBorder = false)`, Model/Geometry, regenerated from geometry.cpp)
+  let s := Id.run do
+    let mut s := s
+    if !s.model.queue.isEmpty then return s
+    -- (an orthogonal-only router never reads `contains` and does not regenerate it for a moved end point)
+    if s.orth then return s
+    for (cid, e, ids) in t.ct do
+      match findConn s.model.scene cid with
+      | none => pure ()
+      | some c =>
+        match (if e == 1 then c.src else c.dst) with
+        | none => pure ()
+        | some p =>
+          let want := (s.model.scene.obsts.filter fun o =>
+            o.active && AdaptaVerif.Model.Geometry.inPoly (polysOf s.rpPrev o.id) (toG p) false).map (·.id)
+          s := s.bump "contains.compared"
+          if !want.isEmpty then s := s.bump "contains.non-empty"
+          if sortBy id want != sortBy id ids then
+            s := s.setFail (.diverge s!"contains-stale conn={cid} end={e} after-op={s.lastOp}: Router::contains = {ids}, from scratch {want}")
+    return s
   let mut s := { s with txn := {}, inTxn := false }
   if !s.model.queue.isEmpty then
     -- the router is in the middle of a transaction (move folded into a queued Add while transactions
@@ -713,6 +736,10 @@ def stepLine (s : St) (l : Array String) : St :=
     match num? (rest[3]?.getD "") with
     | some d => { s with txn := { s.txn with pf := (nat! (rest[0]?.getD "0"), rest[1]?.getD "0" == "1", rest[2]?.getD "0" == "1", d) :: s.txn.pf } }
     | none => s.setFail (.diverge "unparsable pf line")
+  | "ct" =>
+    let n := nat! (rest[2]?.getD "0")
+    let ids := (List.range n).map fun j => nat! (rest[3 + j]?.getD "0")
+    { s with txn := { s.txn with ct := (nat! (rest[0]?.getD "0"), nat! (rest[1]?.getD "0"), ids) :: s.txn.ct } }
   | "hook" => { s with txn := { s.txn with hook := rest[0]?.getD "0" == "1" } }
   | "ran" => { s with txn := { s.txn with ran := nat! (rest[0]?.getD "2") } }
   | "ve" =>
